@@ -66,7 +66,8 @@ def check_jaeger(batch, out):
         if svc != "svc":
             return "service name %r" % svc
         spans += sp
-    want = [exp_jaeger(x) for x in batch]
+    # a record whose own encoding cannot fit a datagram is legitimately skipped (C20); everything else is transmitted
+    want = [exp_jaeger(x) for x in batch if len(x["name"].encode()) < 7900]
     if spans != want:
         for i, (a, b) in enumerate(zip(spans, want)):
             if a != b:
@@ -146,6 +147,14 @@ def run(v, tier, seed, replay):
         if which == "jaeger" and not small(b):
             b = [x for x in b if len(G.wire_record(x)) < 1500]
         cases.append((which, b))
+    if not replay:
+        # ordinary records next to one that cannot fit a datagram, at every position: the ordinary ones are all transmitted
+        rr = r.fork()
+        for k, after in ((1, 0), (1, 1), (2, 0), (2, 1), (3, 1), (4, 0), (0, 2)):
+            small_recs = [dict(G.gen_record(rr.fork(), i, "s%d" % i), span=i + 1, props=[("k", "v")], events=[]) for i in range(k + after)]
+            # larger than (k+1) datagrams, so that even the average of the batch it is first tried in exceeds one
+            huge = dict(G.gen_record(rr.fork(), 9, "H" * ((k + 1) * 8000 + 2000)), span=99, props=[], events=[])
+            cases.append(("jaeger", small_recs[:k] + [huge] + small_recs[k:]))
     svc, res, ty = "svc", "res/ource", "web"
     lines = []
     for which, b in cases:
@@ -199,7 +208,7 @@ def run(v, tier, seed, replay):
         for ci, ((which, b), out) in enumerate(zip(cases, impl)):
             if which == "jaeger" and out.startswith("dg") and len(out.split()) == 2:
                 jd_lines.append("jdec " + out.split()[1]); jd_meta.append(ci)
-                jd_lines.append("jview %s %s" % (G.hx(svc), G.wire_records(b))); jd_meta.append(ci)
+                jd_lines.append("jview %s %s" % (G.hx(svc), G.wire_records([x for x in b if len(x["name"].encode()) < 7900]))); jd_meta.append(ci)
     if impl is not None:
         for ci, ((which, b), out) in enumerate(zip(cases, impl)):
             if which == "datadog" and out.startswith("dd ") and len(out.split()) == 4:
